@@ -196,9 +196,9 @@ func Thorough() bool { return Tier() == "thorough" }
 
 // CaseFile is the replay file format.
 type CaseFile struct {
-	Property string          `json:"property"`
-	Error    string          `json:"error,omitempty"`
-	Note     string          `json:"note,omitempty"`
+	Property string `json:"property"`
+	Error    string `json:"error,omitempty"`
+	Note     string `json:"note,omitempty"`
 	// Env holds the process settings the case was executed under where they differ from the default (one shard of every
 	// check runs on a single CPU); a replay puts them in place first.
 	Env  map[string]string `json:"env,omitempty"`
@@ -529,8 +529,23 @@ type opaqueReaderAt struct{ r io.ReaderAt }
 
 func (o opaqueReaderAt) ReadAt(p []byte, off int64) (int, error) { return o.r.ReadAt(p, off) }
 
+// eagerEOFReaderAt returns io.EOF already with the read that reaches the end of the input, which io.ReaderAt allows
+// ("may return either err == EOF or err == nil").
+type eagerEOFReaderAt struct {
+	r    io.ReaderAt
+	size int64
+}
+
+func (e eagerEOFReaderAt) ReadAt(p []byte, off int64) (int, error) {
+	n, err := e.r.ReadAt(p, off)
+	if err == nil && off+int64(n) == e.size {
+		err = io.EOF
+	}
+	return n, err
+}
+
 // ReaderAtKinds is the number of variants ReaderAtFor knows.
-const ReaderAtKinds = 7
+const ReaderAtKinds = 8
 
 // ReaderAtFor returns the image behind one of several io.ReaderAt implementations a caller may legitimately hand
 // to a positional-read API: what is read at an offset is the same for all of them, whatever else the value can do
@@ -555,6 +570,8 @@ func ReaderAtFor(img []byte, variant int) (io.ReaderAt, string) {
 		return io.NewSectionReader(bytes.NewReader(buf), int64(len("prefix bytes of a container file")), int64(len(img))), "io.SectionReader into a larger file"
 	case 6:
 		return opaqueReaderAt{bytes.NewReader(img)}, "ReadAt only"
+	case 7:
+		return eagerEOFReaderAt{bytes.NewReader(img), int64(len(img))}, "ReadAt that reports io.EOF together with the last bytes"
 	}
 	return bytes.NewReader(img), "bytes.Reader"
 }
